@@ -185,6 +185,11 @@ func c11DecodeInto(w *rt.W, data []byte, before date.Date) (accepted bool) {
 }
 
 func runC11(c *rt.Ctx) {
+	retainedAcrossCollections(c, "Date.MarshalBinary", 256, func(i int) ([]byte, string) {
+		y, m, d := int64(1900+i%4000), 1+i%12, 1+i%28
+		b, _ := date.New(int(y), time.Month(m), d).MarshalBinary()
+		return b, string([]byte{1, byte(uint32(y) >> 24), byte(uint32(y) >> 16), byte(uint32(y) >> 8), byte(uint32(y)), byte(m), byte(d)})
+	})
 	appenderSweep(c, func() []any {
 		var out []any
 		for _, v := range []date.Date{date.New(2024, 2, 29), date.New(1, 1, 1), date.New(9999, 12, 31), date.New(-44, 3, 15), date.New(999999999, 12, 31), date.New(-999999999, 1, 1), date.New(256, 1, 1), date.New(65536, 7, 4), date.Date{}} {
